@@ -21,20 +21,25 @@ BITWISE equality (values compared with ==, so -0.0 == +0.0; NaN never equal).
   random leg   ~100 (quick) / ~1000 (thorough) random integer fields on random shapes (3-D 4..14, 2-D 4..40).
 Noise leg: Gaussian fields, non-dyadic prefactors, |lhs - rhs| <= 16 eps_t * (sum of |terms| bound).
 
-Deliberate breaks tried (tools/mut.sh --sed ..., quick tier): mutation -> mechanism that reported it
-  curl_3d.py   curl_y "field_x[1, 0, 0] - field_x[-1, 0, 0]" -> "+"                -> div(curl)!=0, forcing!=w+p*curl, sim-divergence... n/a
-  curl_3d.py   curl_x field_z[0, 1, 0] -> field_z[1, 0, 0] (axis swap)             -> div(curl)!=0, forcing!=w+p*curl
-  outplane_field_curl_2d.py  (field[0, -1] - field[0, 1]) -> (field[0, 1] - field[0, -1])   -> div(curl psi)!=0, curl(curl psi)!=-lap_2h psi
-  inplane_field_curl_2d.py   field_x[1, 0] -> field_x[0, 1]                         -> curl(curl psi)!=-lap_2h psi, forcing!=w+p*curl
-  update_vorticity_from_velocity_forcing_2d.py  first "* prefactor" dropped        -> forcing!=w+p*curl, penalised!=forcing(up-u)
-  update_vorticity_from_velocity_forcing_3d.py  forcing z-comp "- velocity_forcing_field_x[0, 1, 0]" -> "+"  -> forcing!=w+p*curl, sim-divergence-norm!=0
-  update_vorticity_from_velocity_forcing_3d.py  penalised "- velocity_field_z[0, 1, 0]" -> "+"      -> penalised!=forcing(up-u)
-  update_vorticity_from_velocity_forcing_2d.py  penalised "- velocity_field_y[0, 1]" -> "+"         -> penalised!=forcing(up-u)
-  divergence_3d.py  field_y[0, 1, 0] -> field_y[1, 0, 0] (axis swap)               -> div(curl)!=0, sim-divergence-norm!=0
-  divergence_3d.py  "- field_z[-1, 0, 0]" -> "+ field_z[-1, 0, 0]"                  -> div(curl)!=0, sim-divergence-norm!=0
-  divergence_3d.py  "0.5" line deleted                 -> NOT an identity change (div curl is still 0): HELD, as it must
-  diffusion / ENO3 / filter / stretching mutations     -> no identity of C12 involved: HELD, as it must (C05 reports them)
-Unchanged tree silent for VERIF_SEED 0..5 (quick) and 0,1 (thorough).
+Deliberate breaks tried (tools/mut.sh --sed '<expr>' <file> C12, quick tier, seed 0; files under
+sopht/numeric/eulerian_grid_ops/stencil_ops_{2d,3d}/): mutation -> VIOLATION mechanisms (impulse AND random legs)
+  M1  curl_3d.py  curl_y "field_x[1,0,0] - field_x[-1,0,0]" -> "+" (sign)        -> div(curl)!=0, forcing!=w+p*curl
+  M2  curl_3d.py  curl_x field_z[0,1,0] -> field_z[1,0,0] (axis swap)             -> div(curl)!=0, forcing!=w+p*curl
+  M23 curl_3d.py  curl_z "prefactor *" dropped                                    -> div(curl)!=0, forcing!=w+p*curl
+  M3  outplane_field_curl_2d.py  (field[0,-1]-field[0,1]) -> (field[0,1]-field[0,-1]) -> div(curl psi)!=0, curl(curl psi)!=-lap_2h psi
+  M4  inplane_field_curl_2d.py   field_x[1,0] -> field_x[0,1] (axis swap)         -> curl(curl psi)!=-lap_2h psi, forcing!=w+p*curl
+  M7  update_vorticity_from_velocity_forcing_2d.py  forcing "* prefactor" dropped -> forcing!=w+p*curl, penalised!=forcing(up-u)
+  M17 update_vorticity_from_velocity_forcing_3d.py  forcing z "- f_x[0,1,0]" -> "+" -> forcing!=w+p*curl, penalised!=forcing(up-u), sim-divergence-norm!=0
+  M22 update_vorticity_from_velocity_forcing_3d.py  y-comp "w = w + p*(..)" -> "w = p*(..)" (forcing and penalised alike) -> forcing!=w+p*curl, sim-divergence-norm!=0
+  M8  update_vorticity_from_velocity_forcing_3d.py  penalised "- velocity_field_z[0,1,0]" -> "+" -> penalised!=forcing(up-u)
+  M9  update_vorticity_from_velocity_forcing_2d.py  penalised "- velocity_field_y[0,1]" -> "+"   -> penalised!=forcing(up-u)
+  M18 divergence_3d.py  field_y[0,1,0] -> field_y[1,0,0] (axis swap)              -> div(curl)!=0, sim-divergence-norm!=0
+  M19 divergence_3d.py  "- field_z[-1,0,0]" -> "+"                                -> div(curl)!=0, sim-divergence-norm!=0
+12/12 identity-affecting breaks caught, all bitwise on the integer legs.  Controls that must stay silent, and do:
+  M14 divergence_3d.py 0.5 -> 1.0 (div curl is still 0)  -> HELD ;  M5 diffusion centre weight 4 -> 3 -> HELD
+  (ENO3 / filter / stretching-flux / Laplacian breaks touch no identity of C12; C05 reports them).
+Unchanged tree: exit 0 for VERIF_SEED 0..5 (quick, 22-28 s on 8 workers) and 0,1 (thorough, ~45 s); noise-leg max
+err/tol 0.03 (headroom 30x).
 """
 import numpy as np
 
